@@ -186,6 +186,10 @@ func (f *Flat) SplitBools() *Flat {
 	var cond3 func(e ast.Expr, v valuation) (bool, bool)
 	cond3 = func(e ast.Expr, v valuation) (bool, bool) {
 		e = ast.Unparen(e)
+		if tv, ok := info.Types[e]; ok && tv.Value != nil && tv.Value.Kind() == constant.Bool {
+			b := constant.BoolVal(tv.Value)
+			return b, !b
+		}
 		switch x := e.(type) {
 		case *ast.Ident:
 			if i, ok := idx[objOf(info, x)]; ok {
